@@ -5,6 +5,8 @@ CFG = dict(
     gen_obligations=[
         "Inst.gen_norm: Value::hash_key normalises the sign of a float zero (key respects ==)",
         "Inst.gen_index_path: try_index_lookup dispatch, re-check of candidates, offset/limit after re-check, omitted columns indexed as NULL",
+        "Inst.gen_ordered_key: OrderedFloat::cmp identifies -0.0 with +0.0 (NaNs equal and least, otherwise partial_cmp), as the model's ordered key does",
+        "Inst.gen_no_shortcut: the index paths of select / select_with_limit / count / count_column return only the re-checked result",
         "Inst.gen_vector_path: vectorised kernels clear NULL cells (Ne keeps them), apply the alive mask, leave True to the row path, compare floats exactly",
     ],
     crate="nvh_c04",
